@@ -1,8 +1,11 @@
 package main
 
 import (
+	"bytes"
 	"fmt"
+	"hash/fnv"
 	"math/rand"
+	"strconv"
 	"strings"
 
 	"verif/harness/internal/smf"
@@ -141,7 +144,92 @@ func (d Doc) YAML() []byte {
 	if err != nil {
 		panic(err)
 	}
-	return b
+	return restyleYAML(b)
+}
+
+// restyleYAML re-writes a document in another YAML style that denotes the same data, chosen by a hash of the document:
+// flow mappings, CRLF line ends with a document marker and comments, keys in reverse order with integer durations as bare
+// numbers, anchors and aliases for repeated duration lists. Half of the documents keep the library's default style.
+func restyleYAML(b []byte) []byte {
+	h := fnv.New32a()
+	h.Write(b)
+	sel := mix32(h.Sum32()) % 8
+	if sel < 4 {
+		return b
+	}
+	var doc yaml.Node
+	if yaml.Unmarshal(b, &doc) != nil || len(doc.Content) != 1 || doc.Content[0].Kind != yaml.SequenceNode {
+		return b
+	}
+	seq := doc.Content[0]
+	switch sel {
+	case 4:
+		for _, it := range seq.Content {
+			it.Style = yaml.FlowStyle
+		}
+	case 5:
+		for i, it := range seq.Content {
+			it.HeadComment = fmt.Sprintf("instance %d: [not, a, list] {nor: a map}", i+1)
+		}
+	case 6:
+		for _, it := range seq.Content {
+			if it.Kind != yaml.MappingNode {
+				continue
+			}
+			rev := []*yaml.Node{}
+			for j := len(it.Content) - 2; j >= 0; j -= 2 {
+				k, v := it.Content[j], it.Content[j+1]
+				if k.Value == "values" && v.Kind == yaml.SequenceNode {
+					for _, x := range v.Content {
+						if _, err := strconv.Atoi(x.Value); err == nil && !strings.HasPrefix(x.Value, "0") {
+							x.Tag, x.Style = "!!int", 0
+						}
+					}
+				}
+				rev = append(rev, k, v)
+			}
+			it.Content = rev
+		}
+	case 7:
+		seen := map[string]*yaml.Node{}
+		n := 0
+		for _, it := range seq.Content {
+			if it.Kind != yaml.MappingNode {
+				continue
+			}
+			for j := 0; j+1 < len(it.Content); j += 2 {
+				if it.Content[j].Value != "values" {
+					continue
+				}
+				v := it.Content[j+1]
+				key := ""
+				for _, x := range v.Content {
+					key += x.Value + ","
+				}
+				if first, ok := seen[key]; ok {
+					if first.Anchor == "" {
+						n++
+						first.Anchor = fmt.Sprintf("v%d", n)
+					}
+					it.Content[j+1] = &yaml.Node{Kind: yaml.AliasNode, Alias: first, Value: first.Anchor}
+				} else {
+					seen[key] = v
+				}
+			}
+		}
+	}
+	var buf bytes.Buffer
+	enc := yaml.NewEncoder(&buf)
+	enc.SetIndent(2 + int(sel)%3)
+	if enc.Encode(&doc) != nil {
+		return b
+	}
+	enc.Close()
+	out := buf.Bytes()
+	if sel == 5 {
+		out = append([]byte("---\r\n"), bytes.ReplaceAll(out, []byte("\n"), []byte("\r\n"))...)
+	}
+	return out
 }
 
 // Abstract is the form handed to TLC: notations as code-point sequences, texts as UTF-8 byte sequences.
